@@ -1484,3 +1484,122 @@ def eval_bool_table(rows, full):
                 return None
             return full[k] != neg
     return None
+
+
+# ---------------------------------------------------------------------------------------------------------------
+# per-element rules on `for` loops: a step runs for EVERY element (no `continue`/guard around it), no early `break`
+
+def for_loops(body):
+    """natural loops driven by Iterator::next (for / while-let-next): list of dict(header, blocks, next_bb, switch_bb,
+    some, none, iter (receiver operand of next), line)"""
+    out = []
+    for h, blocks in body.natural_loops().items():
+        for bi in sorted(blocks):
+            t = body.blocks[bi].term
+            if t.k != "call" or t.callee.method != "next" or t.callee.trait != "std::iter::Iterator" or t.target is None or t.dest is None or not t.dest.is_local():
+                continue
+            # innermost loop of this next() must be this loop
+            lo = body.loop_of(bi)
+            if lo is None or lo[0] != h:
+                continue
+            sb = t.target
+            st = body.blocks[sb].term
+            if st.k != "switch":
+                continue
+            none = [tg for v, tg in st.targets if v == 0]
+            some = [tg for v, tg in st.targets if v == 1]
+            if not none or not some:
+                continue
+            if none[0] in blocks and some[0] not in blocks:
+                continue
+            out.append({"header": h, "blocks": blocks, "next_bb": bi, "switch_bb": sb, "some": some[0], "none": none[0], "iter": t.args[0], "line": t.line})
+            break
+    return out
+
+
+def loop_skip_path(body, loop, step_blocks):
+    """True if one iteration (from the Some-arm back to the header) can complete without entering `step_blocks`"""
+    steps = set(step_blocks)
+    if loop["some"] in steps:
+        return False
+    seen = set()
+    st = [loop["some"]]
+    while st:
+        x = st.pop()
+        if x == loop["header"]:
+            return True
+        if x in seen or x in steps or x not in loop["blocks"]:
+            continue
+        seen.add(x)
+        st.extend(body.succ[x])
+    return False
+
+
+def loop_early_exits(body, loop):
+    """edges that leave the loop other than through the exhaustion (None) arm and that can still reach a normal return:
+    `break` / `return Ok(..)` in the middle of the iteration"""
+    errs = error_blocks(body)
+    out = []
+    for x in sorted(loop["blocks"]):
+        for y in body.succ[x]:
+            if y in loop["blocks"]:
+                continue
+            if x == loop["switch_bb"] and y == loop["none"]:
+                continue
+            if body.blocks[y].term.k == "unreachable":
+                continue
+            reach = body.reachable_from(y, avoid_blocks=errs)
+            if y not in errs and any(e in reach for e in body.exits):
+                out.append((x, y))
+    return out
+
+
+def assignments_to(body, local, blocks=None):
+    """blocks (optionally restricted) that assign `local` (whole local) by a statement or a call destination"""
+    out = set()
+    for bi in sorted(body.reach):
+        if blocks is not None and bi not in blocks:
+            continue
+        blk = body.blocks[bi]
+        for st in blk.stmts:
+            if st.k == "assign" and st.place.is_local() and st.place.local == local:
+                out.add(bi)
+        t = blk.term
+        if t.k == "call" and t.dest is not None and t.dest.is_local() and t.dest.local == local:
+            out.add(bi)
+    return out
+
+
+SOFT_FILTERS = {"filter", "filter_map", "flat_map", "find", "find_map", "skip_while", "take_while", "map_while", "skip", "take", "step_by", "nth", "last", "dedup", "dedup_by_key", "retain", "peekable"}
+
+
+def chain_filters(body, pv, op, allow=()):
+    """filtering / truncating adaptors on the receiver chain of an operand (see adaptor_chain)"""
+    return [m for m in adaptor_chain(body, pv, op) if m in SOFT_FILTERS and m not in allow]
+
+
+def check_every_element(ck, rule, key, body, loop, step_blocks, step_desc, elems_desc):
+    """the step runs once for EVERY element the loop visits, and the loop visits all of them"""
+    if not step_blocks:
+        ck.ob(rule, key + "/every", False, "%s: the loop over %s never performs `%s`" % (body.short, elems_desc, step_desc), where=body.where(loop["line"]))
+        return
+    skip = loop_skip_path(body, loop, step_blocks)
+    ck.ob(rule, key + "/every", not skip, "%s: `%s` %s" % (body.short, step_desc, ("runs for every element of %s" % elems_desc) if not skip else ("is SKIPPED for some elements of %s (a `continue` or a guard bypasses it)" % elems_desc)), where=body.where(loop["line"]))
+    ex = loop_early_exits(body, loop)
+    ck.ob(rule, key + "/all", not ex, "%s: the loop over %s %s" % (body.short, elems_desc, "ends only when the iterator is exhausted" if not ex else "can be left early (line %s) and still return normally: the remaining elements are not processed" % body.blocks[ex[0][0]].term.line), where=body.where(loop["line"]))
+
+
+def source_local(body, op, pv):
+    """follow plain copies/moves of whole locals backwards from an operand; returns the first local with another kind of definition"""
+    defs = pv.defs(body)
+    seen = set()
+    cur = op.place.local if op.place is not None and op.place.is_local() else None
+    while cur is not None and cur not in seen:
+        seen.add(cur)
+        ds = defs.get(cur, [])
+        uses = [d for kind, pos, d in ds if kind == "assign" and d.rv["k"] == "use" and d.rv["op"].place is not None and d.rv["op"].place.is_local()]
+        if len(ds) == 1 and uses:
+            cur = uses[0].rv["op"].place.local
+        else:
+            return cur
+    return cur
